@@ -52,6 +52,7 @@ type Sched struct {
 	Trace     []Event
 	KeepTrace bool
 	Preempt   int
+	Panics    []string // panics raised by logical threads (recovered so that the run can be judged)
 	dead      bool
 }
 
@@ -81,7 +82,10 @@ func (s *Sched) spawn(name string, f func()) *Thread {
 			return
 		}
 		defer func() {
-			// normal end, or unwinding through Goexit after a kill
+			// normal end, a panic in the code under test, or unwinding through Goexit after a kill
+			if r := recover(); r != nil {
+				s.Panics = append(s.Panics, fmt.Sprintf("thread %s: %v", t.Name, r))
+			}
 			t.done = true
 			s.back <- struct{}{}
 		}()
